@@ -1253,11 +1253,16 @@ def canon_report(rep):
     return (sorted((c, t) for c, t in rep["details"]), sorted(rep["summary"].items(), key=str), sorted(map(tuple, rep["lint"])))
 
 
+# scratch files of the report stream live in a directory PRIVATE to this run of the check: a shared path was removed
+# by a concurrently running C08 check, whose workers then failed to write their files (false alarm, fixed)
+import os as _os
+_os.environ.setdefault("C08_SCRATCH", "/tmp/wt/c08/scratch-%d" % _os.getpid())
+
 def clean_scratch():
     """remove the files the workers wrote for compare / lint"""
     import os
     import shutil
-    scratch = os.environ.get("C08_SCRATCH", "/tmp/wt/c08/scratch")
+    scratch = os.environ["C08_SCRATCH"]            # private to this run (set at import, inherited by the workers)
     shutil.rmtree(scratch, ignore_errors=True)
     try:
         os.rmdir(os.path.dirname(scratch))          # only if nothing else (a scratch copy of the code) lives there
@@ -1303,6 +1308,9 @@ def report_cases(ctx, out):
         reps = [run[i].get("r") for run in runs]
         out.evaluations += len(seeds)
         out.count("report.cases")
+        if any(rep is None for rep in reps) and any("exc" in (run[i] or {}) and (run[i] or {}).get("exc") in ("FileNotFoundError", "PermissionError", "OSError")
+                                                  and "scratch" in str((run[i] or {}).get("msg", "")) for run in runs):
+            raise RuntimeError("C08 report stream: the adapter could not write its scratch files: %r" % [run[i] for run in runs][:2])
         if any(rep is None or "exc" in rep for rep in reps):
             bad = next(rep for rep in reps if rep is None or "exc" in rep)
             out.violations.append({"what": "compare raised/crashed on a Fluent file pair: %s" % (bad and bad.get("exc")), "input": {"ref": a[0], "l10n": a[1], "locale": loc}, "finding": None})
